@@ -86,6 +86,11 @@ func (l LightClientModule) VerifyMembership(
 ) error {
 	ibcStore := l.storeService.OpenKVStore(ctx)
 
+	// the chain's own state cannot be proven at a height it has not reached
+	if selfHeight := clienttypes.GetSelfHeight(ctx); height.GT(selfHeight) {
+		return errorsmod.Wrapf(ibcerrors.ErrInvalidHeight, "proof height %s is greater than the current height %s", height, selfHeight)
+	}
+
 	// ensure the proof provided is the expected sentinel localhost client proof
 	if !bytes.Equal(proof, SentinelProof) {
 		return errorsmod.Wrapf(commitmenttypes.ErrInvalidProof, "expected %s, got %s", string(SentinelProof), string(proof))
@@ -129,6 +134,11 @@ func (l LightClientModule) VerifyNonMembership(
 	path exported.Path,
 ) error {
 	ibcStore := l.storeService.OpenKVStore(ctx)
+
+	// the chain's own state cannot be proven at a height it has not reached
+	if selfHeight := clienttypes.GetSelfHeight(ctx); height.GT(selfHeight) {
+		return errorsmod.Wrapf(ibcerrors.ErrInvalidHeight, "proof height %s is greater than the current height %s", height, selfHeight)
+	}
 
 	// ensure the proof provided is the expected sentinel localhost client proof
 	if !bytes.Equal(proof, SentinelProof) {
